@@ -53,7 +53,15 @@ HCAP = 8            # the spec's bound on horizons the exact machine follows (C0
 
 LABELS = ["int", "str", "tuple", "frozendict", "mixed"]
 DISTS = ["dict", "dict_zeros", "det", "uniform"]
-BREPS = ["belief", "dict", "dict_zeros", "list"]
+BREPS = ["belief", "dict", "dict_zeros", "list", "dict_perm", "dict_perm"]
+# hand-made Belief tuples: states listed in another order than pomdp.state_list / support only
+NONCANON = ["belief_perm", "belief_support"]
+QBREPS = ["belief", "belief_perm", "belief_support", "belief_perm"]
+# AlphaVectorPolicy._belief_to_vector reads the probabilities of a Belief tuple positionally (it ignores the
+# `states` field, unlike QMDPPolicy and next_agentstate): such tuples are only probed and counted for the
+# alpha-vector policy.  Set to True once msdm honours the field: they then join the judged representations.
+ALPHAVECTOR_HONOURS_BELIEF_STATES = False
+RARE_EPS = 1e-9      # probability of the rare transitions of the rare-transition family
 
 
 def tol(x):
@@ -156,7 +164,7 @@ def py_auto_h(m, eps):
     rs = [rsa(m, s, a) for s in range(m["N"]) for a in range(m["K"])]
     rng_ = max(rs) - min(rs)
     if rng_ == 0:
-        return -1, False
+        return 0, False          # the threshold exceeds a zero reward range: no backup (the code divides by machine epsilon)
     g = F(m["GN"], m["GD"])
     h = 0
     while g ** h * rng_ > eps and h < 400:
@@ -223,6 +231,8 @@ def prune(m, listed):
     mp["R"] = [[[m["R"][s][a][t] for t in ls] for a in range(K)] for s in ls]
     mp["p0"] = [m["p0"][s] for s in ls]
     mp["O"] = [[m["O"][a][n] for n in ls] for a in range(K)]
+    pos = {s: i for i, s in enumerate(ls)}
+    mp["rare"] = [[pos[s_], a_, pos[n_]] for s_, a_, n_ in m.get("rare", []) if s_ in pos and n_ in pos]
     return mp, ls
 
 
@@ -249,8 +259,6 @@ def machine_fits(mp, bs, eps, H):
     """Conservative magnitude bound of the exact backup machine (alpha numerators over S^k)."""
     if H < 0:
         H, _ = py_auto_h(mp, eps)
-    if H < 0:
-        return True          # the machine does not run (undefined horizon)
     if H > HCAP or len(bs) > 10:
         return False
     S = mp["PD"] * mp["OD"] * mp["GD"]
@@ -280,6 +288,12 @@ def make_case(rng, k, tier):
         NO = rng.choice([1, 2, 2, 3])
         if (GN, GD) == (9, 10):
             n_na, PD, OD = min(n_na, 2), 2, 2
+        rare = k % 8 == 5
+        if rare:       # rare-transition family: tiny, dyadic, fully revealing, one state reached with probability 1e-9 only
+            GN, GD = rng.choice([(1, 2), (3, 4)])
+            PD = OD = 2
+            n_na, n_abs, K = rng.choice([2, 3, 3]), rng.choice([0, 0, 1]), rng.choice([2, 2, 3])
+            rfam, obs = "mixed", rng.choice(["identity", "permuted"])
         if rfam == "mixed":
             rewards = (-2, -1, 0, 1, 2)
         elif rfam == "nonneg":
@@ -300,6 +314,10 @@ def make_case(rng, k, tier):
         m["obs_kind"], m["rfam"] = obs, rfam
         rep = dict(labels=rng.choice(LABELS), alabels=rng.choice(LABELS), olabels=rng.choice(LABELS),
                    explicit_list=rng.random() < 0.5, dist=rng.choice(DISTS), odist=rng.choice(DISTS), outside=None)
+        if rare:
+            if not make_rare(rng, m):
+                continue
+            rep.update(explicit_list=True, dist="dict")
         if not rep["explicit_list"] and not gen.ghost_closed(m):
             rep["explicit_list"] = True     # ghost successors outside the inferred list: C06's business
         listed = pb.listed_states(m, rep["explicit_list"])
@@ -327,6 +345,8 @@ def make_case(rng, k, tier):
         add(_vertex(N, rng.choice(nas)))
     if abss:
         add(_vertex(N, rng.choice(abss)))
+    for _s, _a, n_ in mp["rare"]:
+        add(_vertex(N, n_))
     add([rng.randint(1, 3) for _ in range(N)])
     z = [rng.randint(1, 3) for _ in range(N)]
     z[rng.randrange(N)] = 0
@@ -388,8 +408,64 @@ def make_case(rng, k, tier):
             cfgs.append(c)
     case["cfgs"] = cfgs
     case["solver"] = "vi" if k % 4 == 3 else "pi"
-    case["brep"] = [rng.choice(BREPS) for _ in bel]
+    case["brep"] = [rng.choice(BREPS + (NONCANON if ALPHAVECTOR_HONOURS_BELIEF_STATES else [])) for _ in bel]
+    case["qbrep"] = [rng.choice(QBREPS) for _ in bel]
     return case
+
+
+def make_rare(rng, m):
+    """Turn a fully revealing instance into a member of the rare-transition family: state n is reached only
+    through transitions of probability RARE_EPS (listed in m["rare"], left out of the integer rows P), and a
+    different action is best there.  The instance keeps small dyadic numbers: values computed without the rare
+    transitions differ from the real ones by at most rare_tol(m)."""
+    N, K, PD = m["N"], m["K"], m["PD"]
+    reach = gen.reach(m)
+    cand = [s for s in range(N) if not m["abs"][s] and m["p0"][s] == 0]
+    src = [s for s in reach if not m["abs"][s]]
+    rng.shuffle(cand)
+    for n in cand:
+        srcs = [s for s in src if s != n]
+        if not srcs:
+            continue
+        others = [t for t in range(N) if t != n]
+        for s in others:
+            for a in range(K):
+                x = m["P"][s][a][n]
+                if x:
+                    m["P"][s][a][n] = 0
+                    m["P"][s][a][rng.choice(others)] += x
+        best = rng.randrange(K)
+        for a in range(K):
+            m["R"][n][a] = [2 if a == best else -2] * N
+            if m["P"][n][a][n] == PD and K == 1:
+                return False
+        reach2 = gen.reach(m)
+        srcs = [s for s in reach2 if not m["abs"][s] and s != n]
+        if not srcs or n in reach2:
+            return False
+        m["rare"] = []
+        for _ in range(rng.choice([1, 1, 2])):
+            t = [rng.choice(srcs), rng.randrange(K), n]
+            if t not in m["rare"]:
+                m["rare"].append(t)
+        return True
+    return False
+
+
+def rare_tol(mp):
+    """Perturbation bound for leaving the rare transitions out of the numbers: per (state, action) the kernel
+    moves by at most 2 r eps in total variation (r rare entries), the expected reward by at most that times
+    max|R|; every policy's discounted value (k-step or infinite, any information structure) then moves by at
+    most  delta * Rabs * (1 + gamma / (1 - gamma)) / (1 - gamma) = delta * Rabs / (1 - gamma)^2."""
+    if not mp.get("rare"):
+        return 0.0
+    per = {}
+    for s_, a_, _n in mp["rare"]:
+        per[(s_, a_)] = per.get((s_, a_), 0) + 1
+    delta = 2 * RARE_EPS * max(per.values())
+    rabs = max(abs(x) for sa in mp["R"] for row in sa for x in row)
+    g = mp["GN"] / mp["GD"]
+    return delta * rabs / (1 - g) ** 2 * 1.01
 
 
 def _vertex(N, s):
@@ -405,6 +481,9 @@ def exact_succs(mp, w):
             post = [sum(w[s] * mp["P"][s][a][n] for s in range(N)) * mp["O"][a][n][o] for n in range(N)]
             if sum(post) > 0:
                 out.add(tuple(reduce_w(post)))
+    for s_, a_, n_ in mp.get("rare", []):       # revealing observations: a rare step leads to the vertex of n
+        if w[s_] > 0:
+            out.add(tuple(_vertex(N, n_)))
     return out
 
 
@@ -444,7 +523,10 @@ class Real:
         rng = random.Random(digest([case["m"], case["rep"]]))
         mb = case.get("m_build", m)          # selftest: a different instance is handed to msdm
         B = self.B = pb.build_pomdp(mb, rng=rng, **rep)
-        p = self.p = B.pomdp
+        p = B.pomdp
+        if m.get("rare"):
+            p = B.pomdp = self.with_rare_transitions(B, m["rare"])
+        self.p = p
         listed = pb.listed_states(m, rep["explicit_list"])
         self.mp, self.ls = prune(m, listed)
         self.pidx = {s: i for i, s in enumerate(self.ls)}
@@ -466,6 +548,33 @@ class Real:
         self.ok = True
         return True
 
+    @staticmethod
+    def with_rare_transitions(B, rare):
+        """The same POMDP with the transitions (s, a, n) of `rare` given probability RARE_EPS (taken
+        proportionally from the other successors)."""
+        from msdm.core.distributions import DictDistribution
+        base = type(B.pomdp)
+        extra = {}
+        for s_, a_, n_ in rare:
+            extra.setdefault((B.slabel[s_], B.alabel[a_]), []).append(B.slabel[n_])
+
+        def lookup(s, a):
+            return extra.get((s, a))
+
+        class _Rare(base):
+            def next_state_dist(self, s, a):
+                d = base.next_state_dist(self, s, a)
+                ns = lookup(s, a)
+                if not ns:
+                    return d
+                items = [(e, pr * (1 - RARE_EPS * len(ns))) for e, pr in d.items() if pr > 0]
+                return DictDistribution(dict(items + [(n, RARE_EPS) for n in ns]))
+        q = _Rare()
+        for attr in ("_state_list", "_action_list"):
+            if attr in B.pomdp.__dict__:
+                setattr(q, attr, B.pomdp.__dict__[attr])
+        return q
+
     # ------------------------------------------------------------------ coordinate changes
     def vec_code(self, w):
         t = sum(w)
@@ -483,6 +592,16 @@ class Real:
         v = self.vec_code(w)
         if kind == "belief":
             return Belief(tuple(self.sl), tuple(float(x) for x in v))
+        if kind in ("belief_perm", "belief_support", "dict_perm"):
+            perm = list(range(len(self.sl)))
+            random.Random(digest([list(w), kind])).shuffle(perm)
+            if perm == sorted(perm) and len(perm) > 1:
+                perm = perm[1:] + perm[:1]
+            if kind == "belief_support":
+                perm = [i for i in perm if v[i] > 0]
+            if kind == "dict_perm":          # every listed state, zeros included, inserted in another order
+                return DictDistribution({self.sl[i]: float(v[i]) for i in perm})
+            return Belief(tuple(self.sl[i] for i in perm), tuple(float(v[i]) for i in perm))
         if kind == "dict":
             return DictDistribution({s: float(x) for s, x in zip(self.sl, v) if x > 0})
         if kind == "dict_zeros":
@@ -587,6 +706,8 @@ class Real:
             # the code does not follow the farthest-successor rule where the rule is unambiguous: judge the
             # returned policy against the belief set the rule prescribes (DRIFT is reported by the judge)
             rec["deviates"] = {"expected": spec_seq[j_used], "real": None if exact_seq is None else exact_seq[j_used], "why": why}
+            if exact_seq is not None:
+                self.record_expands(exact_seq, j_used, True)       # TLC rejects the step that drops / adds a belief
             bs = spec_seq[j_used]
             try:
                 r = self.call("point_based_value_iteration", point_based_value_iteration, self.p,
@@ -619,11 +740,15 @@ class Real:
         else:
             rec["job"] = None
             self.ctx.skip("belief set with weights too large for the exact machine")
-        # recorded expansion steps for trace validation (first three of the sequence)
+        self.record_expands(exact_seq, j_used, spec_seq is not None)
+
+    def record_expands(self, exact_seq, j_used, strict):
+        """Recorded expansion steps for trace validation by TLC (first three of the sequence).  strict: floating
+        point is exact here, so every farthest successor must have been added (ExpandAll)."""
         for j in range(min(3, j_used + 1)):
             frm, to = exact_seq[j], exact_seq[j + 1]
             allw = frm + to + [list(x) for w in frm for x in exact_succs(self.mp, w)]
-            ex = 1 if max(sum(w) for w in allw) <= 8 and len(frm) <= 6 else 0
+            ex = (2 if strict else 1) if max(sum(w) for w in allw) <= 8 and len(frm) <= 6 else 0
             e = {"from": frm, "to": to, "exact": ex}
             if e not in self.expands and len(to) <= 12:
                 self.expands.append(e)
@@ -692,7 +817,7 @@ class Real:
         obs = []
         qonly = kind == "qmdp"
         for i, w in enumerate(self.case["beliefs"]):
-            brep = "belief" if qonly else self.case["brep"][i]
+            brep = self.case.get("qbrep", ["belief"] * (i + 1))[i] if qonly else self.case["brep"][i]
             o = {"brep": brep}
             try:
                 b = self.belief_obj(w, brep)
@@ -707,6 +832,17 @@ class Real:
                 o["error"] = err_of(e)
             obs.append(o)
         rec["obs"] = obs
+        if not qonly and not ALPHAVECTOR_HONOURS_BELIEF_STATES:
+            # probe only (see ALPHAVECTOR_HONOURS_BELIEF_STATES): a Belief tuple with permuted states
+            for i, w in enumerate(self.case["beliefs"]):
+                if len(set(w)) >= 2 and "value" in obs[i]:
+                    try:
+                        v = float(pol.value(self.belief_obj(w, "belief_perm")))
+                        self.ctx.count("alphavector_probe_permuted_belief_tuple_" +
+                                       ("honoured" if abs(v - obs[i]["value"]) <= tol(v) else "read_positionally"))
+                    except Exception:                        # noqa: BLE001
+                        self.ctx.count("alphavector_probe_permuted_belief_tuple_raised")
+                    break
 
     def run_qmdp(self):
         from msdm.algorithms import QMDP, ValueIteration
@@ -758,6 +894,7 @@ class Real:
         rec["jobs"] = self.jobs
         rec["expands"] = self.expands
         rec["greedy"] = self.greedy
+        rec["rare"] = [[s_ + 1, a_ + 1, n_ + 1] for s_, a_, n_ in mp["rare"]]
         return rec
 
 
@@ -766,6 +903,8 @@ def shape_of(m):
     tags = ["revealing-observations" if m["obs_kind"] in ("identity", "permuted") else "partial-observations"]
     if any(m["abs"]) and m.get("ghost"):
         tags.append("ghost-absorbing-states")
+    if m.get("rare"):
+        tags.append("rare-transition")
     return ",".join(tags)
 
 
@@ -787,6 +926,8 @@ class Judge:
         self.rmin = frac(orc["rmin"])
         self.rmax = frac(orc["rmax"])
         self.shape = real.shape
+        self.rare = bool(self.mp.get("rare"))
+        self.rtol = rare_tol(self.mp)
 
     # ------------------------------------------------------------------ helpers
     def fail(self, site, clause, what, extra=None, shape=None):
@@ -794,6 +935,10 @@ class Judge:
         sig = f"C08:{site}:{clause}:{shape or self.shape}"
         self.ctx.violation(sig, f"{site} {clause}: {what}"[:700],
                            {"case": self.case, "site": site, "clause": clause, "extra": extra})
+
+    def t(self, x):
+        """float against exact rational: 1e-9 relative (+ the perturbation bound of the rare-transition family)"""
+        return tol(x) + self.rtol
 
     def slack_up(self, k):
         return self.g ** k * max(F(0), -self.rmin) / (1 - self.g)
@@ -815,12 +960,6 @@ class Judge:
         eps, H = rec.get("eps"), rec.get("H")
         site = where or rec["site"]
         shape = None
-        if rec["kind"] in ("s1", "s2") and where == "point_based_value_iteration":
-            h = H if H >= 0 else py_auto_h(self.mp, eps)[0]
-            if name == "ZeroDivisionError" and H < 0 and h == -1:
-                shape = "constant-reward-automatic-horizon"
-            elif name == "UnboundLocalError" and h == 0:
-                shape = "zero-backups"
         self.fail(site, f"raised-{name}", f"{msg} [called through {rec['site']}, eps={eps}, horizon={'None' if H is not None and H < 0 else H}]",
                   extra={"kind": rec["kind"], "idx": rec.get("idx")}, shape=shape)
 
@@ -829,11 +968,12 @@ class Judge:
         """(k for the slack, machine record or None, robust?) for one run of the backup loop."""
         jr = self.recs.get(("pbvi", rec["job"], "first")) if rec.get("job") else None
         kc = rec.get("k")
-        if jr is None or jr["phase"] in ("skipped", "undefined"):
+        if jr is None or jr["phase"] == "skipped":
             return kc, jr, False
         ks = jr["k"]
         bs = rec["bs"]
-        robust = self.dyadic(bs, rec["eps"]) or not (jr["tied"] or jr["edge"])
+        # (rare-transition family: the machine works without the 1e-9 entries, a stop test could fall differently)
+        robust = not self.rare and (self.dyadic(bs, rec["eps"]) or not (jr["tied"] or jr["edge"]))
         if robust:
             return ks, jr, True
         self.ctx.count("runs_with_float_dependent_ties")
@@ -841,14 +981,14 @@ class Judge:
 
     def compare_machine(self, rec, jr, robust):
         """Reference machine vs the real loop: DRIFT when it does not explain the run."""
-        if jr is None or jr["phase"] in ("skipped", "undefined") or not robust or "alpha" not in rec \
+        if jr is None or jr["phase"] == "skipped" or not robust or "alpha" not in rec \
                 or rec.get("no_machine_compare"):
             return None
         sc = jr["scale"]
         exp = [[F(x, sc) for x in row] for row in jr["alpha"]]
         got = rec["alpha"]
         same = jr["k"] in (rec.get("k"), rec.get("k_alt")) and len(exp) == len(got) and all(
-            abs(got[p][s] - float(exp[p][s])) <= tol(exp[p][s]) for p in range(len(exp)) for s in range(len(exp[p])))
+            abs(got[p][s] - float(exp[p][s])) <= self.t(exp[p][s]) for p in range(len(exp)) for s in range(len(exp[p])))
         if same and jr["phase"] in ("stopped", "horizon") and self.dyadic(rec["bs"], rec["eps"]) \
                 and [a + 1 for a in rec.get("acts", [])] != list(jr["acts"]):
             same = False        # the action attached to each alpha vector (alpha_actions) differs
@@ -867,8 +1007,6 @@ class Judge:
             return
         k, jr, robust = self.job_k(rec)
         same = self.compare_machine(rec, jr, robust)
-        if jr is not None and jr["phase"] == "undefined":
-            self.ctx.count("undefined_automatic_horizon_but_no_crash")
         if k is None:
             return
         alpha = np.array(rec["alpha"])
@@ -886,11 +1024,11 @@ class Judge:
         su = self.slack_up(k)
         ok = True
         extra = {"belief": self.case["beliefs"][i], "kind": rec["kind"], "idx": rec.get("idx"), "k": k}
-        if not v <= float(hi + su) + tol(hi + su):
+        if not v <= float(hi + su) + self.t(hi + su):
             self.fail(site, "value-exceeds-optimal-value-plus-slack",
                       f"value {v!r} at belief {self.case['beliefs'][i]} > Hi_d {hi} + slack {su} (k={k} backups; Lo_d={lo})", extra)
             ok = False
-        if qv is not None and not v - qv <= float(su) + tol(su) + tol(qv):
+        if qv is not None and not v - qv <= float(su) + self.t(su) + self.t(qv):
             self.fail(site, "exceeds-QMDP-by-more-than-slack",
                       f"PBVI value {v!r} - QMDP value {qv!r} > slack {su} at belief {self.case['beliefs'][i]}", extra)
             ok = False
@@ -898,7 +1036,7 @@ class Judge:
         # backup is exact (member of a successor-closed belief set; spec invariant ClosedExact)
         if self.full and jr is not None and jr.get("closed") and jr["inset"][i]:
             sl = self.slack_lo(k)
-            if not v >= float(hi - sl) - tol(hi - sl):
+            if not v >= float(hi - sl) - self.t(hi - sl):
                 self.fail(site, "fully-observable-value-below-optimum-minus-slack",
                           f"value {v!r} at belief {self.case['beliefs'][i]} < V* {hi} - slack {sl} (k={k}, closed belief set)", extra)
                 ok = False
@@ -935,7 +1073,7 @@ class Judge:
             allok &= self.value_clauses("PointBasedValueIteration.plan_on", o["value"], i, ob, k, jr, rec, qv)
             # the value must be the value of the returned alpha vectors (AlphaVectorPolicy.value)
             va = float(np.max(np.array(rec["alpha"]) @ np.array([float(x) for x in normal(w)])))
-            if not abs(va - o["value"]) <= tol(va):
+            if not abs(va - o["value"]) <= self.t(va):
                 self.fail("AlphaVectorPolicy.value", "value-is-not-the-maximum-over-alpha-vectors",
                           f"value {o['value']!r} vs max alpha.b {va!r} at belief {w} ({o['brep']})", {"belief": w, "idx": rec["idx"]})
                 allok = False
@@ -956,13 +1094,13 @@ class Judge:
             qhi = frac(ob["qhi"][a])
             v = o["av"][ai]
             extra = {"belief": w, "idx": rec["idx"], "action": a, "k": k}
-            if not v <= float(qhi + su) + tol(qhi + su):
+            if not v <= float(qhi + su) + self.t(qhi + su):
                 self.fail("AlphaVectorPolicy.action_value", "look-ahead-exceeds-optimal-action-value-plus-slack",
                           f"action_value {v!r} (action {a}) at belief {w} > HiQ_d {qhi} + slack {su} (k={k})", extra)
                 ok = False
             if self.full and jr is not None and jr.get("closed") and jr["cov"][i]:
                 sl = self.slack_lo(k + 1)
-                if not v >= float(qhi - sl) - tol(qhi - sl):
+                if not v >= float(qhi - sl) - self.t(qhi - sl):
                     self.fail("AlphaVectorPolicy.action_value", "fully-observable-look-ahead-below-optimum-minus-slack",
                               f"action_value {v!r} (action {a}) at belief {w} < Q* {qhi} - slack {sl} (k={k})", extra)
                     ok = False
@@ -988,18 +1126,18 @@ class Judge:
                 continue
             for ai, a in enumerate(self.real.apos):
                 ex = frac(ob["qmdp"][a])
-                if not abs(o["av"][ai] - float(ex)) <= tol(ex) + extra_tol:
+                if not abs(o["av"][ai] - float(ex)) <= self.t(ex) + extra_tol:
                     self.fail("QMDPPolicy.action_value", "not-the-belief-weighted-optimal-MDP-action-value",
                               f"action_value {o['av'][ai]!r} (action {a}) at belief {w}, exact sum_s b(s) Q*(s,a) = {ex} (solver {rec['solver']})",
                               {"belief": w, "action": a})
                     allok = False
             lo = frac(ob["lo"])
-            if not o["value"] >= float(lo) - tol(lo) - extra_tol:
+            if not o["value"] >= float(lo) - self.t(lo) - extra_tol:
                 self.fail("QMDPPolicy.value", "value-below-optimal-value",
                           f"QMDP value {o['value']!r} at belief {w} < Lo_d {lo} <= V*", {"belief": w})
                 allok = False
             h1 = frac(ob["h1"])
-            if not abs(o["value"] - float(h1)) <= tol(h1) + extra_tol:
+            if not abs(o["value"] - float(h1)) <= self.t(h1) + extra_tol:
                 self.fail("QMDPPolicy.value", "value-is-not-the-maximal-action-value",
                           f"QMDP value {o['value']!r} at belief {w}, exact max_a sum_s b(s) Q*(s,a) = {h1}", {"belief": w})
                 allok = False
@@ -1087,10 +1225,6 @@ def crosscheck(idx, real, recs, brec):
             raise TLCFailure(f"case {idx}: no machine record for job {jn}")
         eps = F(job["EN"], job["ED"])
         h, _ = (job["H"], False) if job["H"] >= 0 else py_auto_h(mp, eps)
-        if jr["phase"] == "undefined":
-            if h != -1:
-                raise TLCFailure(f"case {idx} job {jn}: TLA+ says undefined horizon, Python {h}")
-            continue
         if jr["phase"] == "skipped":
             if min(h, HCAP + 1) != jr["h"] and job["H"] < 0:
                 raise TLCFailure(f"case {idx} job {jn}: automatic horizon differs (TLA+ {jr['h']} vs Python {h})")
